@@ -2013,6 +2013,25 @@ class unyt_array(np.ndarray):
                         inp0 = np.asarray(inp0, dtype=new_dtype) / conv
                     else:
                         inp1 = np.asarray(inp1, dtype=new_dtype) * conv
+            if (
+                ufunc is floor_divide
+                and u0 is not u1
+                and u0 != u1
+                and u0.same_dimensions_as(u1)
+            ):
+                # floor(a / b) does not commute with a change of scale, so
+                # commensurable operands are brought to the same (smaller)
+                # unit before the division instead of rescaling the result
+                conv, _ = u0.get_conversion_factor(u1, inp0.dtype)
+                if conv >= 1:
+                    new_dtype = np.dtype("f" + str(inp0.dtype.itemsize))
+                    inp0 = np.asarray(inp0, dtype=new_dtype) * new_dtype.type(conv)
+                    u0 = u1
+                else:
+                    conv, _ = u1.get_conversion_factor(u0, inp1.dtype)
+                    new_dtype = np.dtype("f" + str(inp1.dtype.itemsize))
+                    inp1 = np.asarray(inp1, dtype=new_dtype) * new_dtype.type(conv)
+                    u1 = u0
             # get the unit of the result
             mul, unit = unit_operator(u0, u1)
             if unit_operator in (_multiply_units, _divide_units) and (
